@@ -15,6 +15,16 @@ def opsCli (op : String) (args : List SExp) : Option String :=
       pure (match selectPacket (List.range n) i with
         | some k => s!"shown {k}"
         | none => "out-of-range")
+  | "rowscut", [n, c] => do
+      -- the file of n seven-byte packets with its last c bytes missing: only the complete packets are listed
+      let n ← n.nat?; let c ← c.nat?
+      let rows := describeRows (List.range ((7 * n - c) / 7))
+      pure ("rows" ++ String.join (rows.map (fun r => match r with | some i => s!" {i}" | none => " ...")))
+  | "indexcut", [n, c, i] => do
+      let n ← n.nat?; let c ← c.nat?; let i ← i.int?
+      pure (match selectPacket (List.range ((7 * n - c) / 7)) i with
+        | some k => s!"shown {k}"
+        | none => "out-of-range")
   | _, _ => none
 
 end Driver
